@@ -20,6 +20,10 @@ except Exception:  # pragma: no cover
     sp = None
 
 
+# optional extra observers (harness/pval_emit.py installs one for the codec correspondences); empty = unchanged behaviour
+EXT_HOOKS = []
+
+
 def tname(t):
     return f"{getattr(t, '__module__', '?')}.{getattr(t, '__qualname__', getattr(t, '__name__', '?'))}"
 
@@ -29,6 +33,10 @@ def abs_value(v, memo=None, depth=0):
         memo = {}
     if depth > 200:
         return ["<too-deep>"]
+    for hook in EXT_HOOKS:
+        r = hook(v, memo, depth)
+        if r is not None:
+            return r
     t = type(v)
     if v is None or t is bool or t is int or t is str:
         return [tname(t), v if t is not int or abs(v) < 1 << 62 else str(v)]
